@@ -46,6 +46,25 @@ s = p.read_text()
 def put(s, tag, body):
     a, b = f"<!-- {tag}-BEGIN -->", f"<!-- {tag}-END -->"
     return s[:s.index(a) + len(a)] + "\n" + body + "\n" + s[s.index(b):]
+# seeded changes the check missed at first, and the mutation-audit summary (DESIGN §10.5)
+mrows = ["| seeded change | what the check did not generate (and what it does now) |", "|---|---|"]
+for d in sorted((V / "seeded").glob("*")):
+    try:
+        m = json.loads((d / "meta.json").read_text())
+    except Exception:
+        continue
+    if m.get("first_run_missed"):
+        mrows.append(f"| `{d.name}` | " + m.get("strengthening", "").replace("|", "/").replace("\n", " ")[:700] + " |")
+arows = ["| property | stored mutants | survived the check as it was (quick) | after strengthening |", "|---|---|---|---|"]
+for d in sorted((V / "harness" / "mutants").glob("C*")):
+    diffs = sorted(d.glob("*.diff"))
+    readme = (d / "README.md").read_text() if (d / "README.md").exists() else ""
+    surv = len(re.findall(r"SURVIVED", readme))
+    arows.append(f"| {d.name} | {len(diffs)} | {surv} README line(s) mention SURVIVED | see `harness/mutants/{d.name}/README.md`; replay: `harness/mutation_suite.sh {d.name}` |")
+if "<!-- MISSED-BEGIN -->" in s:
+    s = put(s, "MISSED", "\n".join(mrows))
+if "<!-- AUDIT-BEGIN -->" in s:
+    s = put(s, "AUDIT", "\n".join(arows))
 s = put(s, "STATUS", "\n".join(rows))
 s = put(s, "SEEDED", "\n".join(srows))
 p.write_text(s)
